@@ -32,6 +32,23 @@ Proof.
   - intro H. split; intros x Hx; apply H; exact Hx.
 Qed.
 
+(* ------------------------------------------------------------------ the value equality behind add()'s duplicate test *)
+Lemma drop_excluded_id {A} excluded (fs : list (string * A)) :
+  (forall n, In n (map fst fs) -> ~ In n excluded) -> drop_excluded excluded fs = fs.
+Proof.
+  induction fs as [|[n v] r IH]; intro H; [reflexivity|]. unfold drop_excluded in *. simpl.
+  assert (E : mem n excluded = false) by (apply mem_false; apply H; left; reflexivity).
+  rewrite E. simpl. f_equal. apply IH. intros n' Hn'. apply H. right. exact Hn'.
+Qed.
+
+Lemma eq_sees_all_members_sound excluded M : eq_sees_all_members excluded M = true ->
+  forall k m, In k M -> In m (mc_specs k) -> ~ In (rename_any (ms_name m)) excluded.
+Proof.
+  unfold eq_sees_all_members. rewrite forallb_forall. intros H k m Hk Hm.
+  specialize (H k Hk). rewrite forallb_forall in H. specialize (H m Hm).
+  apply negb_true_iff in H. apply mem_false. exact H.
+Qed.
+
 (* ------------------------------------------------------------------ info() vs constructor keywords *)
 Definition info_ctor_okb (ms : list mspec) (ctor : list string) : bool :=
   set_eqb ctor (map rename_any (info_list ms)).
